@@ -296,6 +296,9 @@ def correspondence(ctx: Ctx):
         nz_over_zero = any(x != 0 and y == 0 for x, y in zip(a, d))
         yield {"line": pline("safediv", a, d), "impl": _impl(run), "nontrivial": 0 in d,
                "bucket": "safe_divide/" + ("nonzero-numerator-over-zero" if nz_over_zero else "zero-divisor" if 0 in d else "nonzero")}
+    # ---- phase 3: Gaussian window, mask + window inside the model, the three map types, the engine's model choice
+    from props import c09_ext
+    yield from c09_ext.correspondence_ext(ctx)
 
 
 # --------------------------------------------------------------------------------------------------
@@ -484,6 +487,9 @@ def oracle(ctx: Ctx, deep: bool = False):
     yield from oracle_jointicnet(ctx, deep)
     # (9) the option matrix of `build_mri_transforms` (what a config can request): type x gaussian x 2-D/3-D x coils x pad_coils
     yield from oracle_pipeline(ctx, deep)
+    # (10) phase 3: option x size-class matrix, real ESPIRiT, histories / in-place, every engine class, range boundary
+    from props import c09_ext
+    yield from c09_ext.oracle_ext(ctx, deep)
     # (6) documentation of the stated partial: outside 2^±60 the squared sum over/underflows (not a violation)
     for e in (-80, 70):
         k = _rand_coil_data(rng, [1, 2, 4, 4, 2], e)
@@ -689,6 +695,10 @@ def replay(rep: dict) -> bool:
 
     op = rep.get("op")
     try:
+        from props import c09_ext
+        r = c09_ext.replay_ext(rep)
+        if r is not None:
+            return r
         if op == "real_engine":
             return real_engine_case(rep["engine"], rep["sens"], rep["seed"], rep["via"]) is not None
         if op == "jointicnet":
